@@ -238,6 +238,7 @@ fn run_history(spec: &Spec) -> Vec<(String, String)> {
             limiter: (spec.limit > 0).then_some((spec.window_s, spec.limit)),
             timeout: Duration::from_secs(spec.timeout_s),
             auth_secret: Some(b"c15-secret".to_vec()),
+            ..Default::default()
         };
         let running = start_listener(&cfg, adapters).await;
         // the reference: a shadow instance of the real limiter fed with the reference model's effective IPs
